@@ -124,7 +124,7 @@ func H_C07(t, w, hcap int) {
 	var tys [refMaxHdrs]int
 	for i := 0; i < count; i++ {
 		h := hs[i]
-		ty := refHdrType(buf[h.ns:h.ne])
+		ty := refHdrTypeB(buf[h.ns:h.ne])
 		tys[i] = ty
 		wantFlags |= 1 << uint(ty)
 		if i < hcap {
@@ -140,16 +140,18 @@ func H_C07(t, w, hcap int) {
 		found := false
 		ns, ne, vs, ve := 0, 0, 0, 0
 		for i := count - 1; i >= 0; i-- {
-			is := tys[i] == int(t)
-			found = vOr(found, is)
-			ns, ne = vIte(is, hs[i].ns, ns), vIte(is, hs[i].ne, ne)
-			vs, ve = vIte(is, hs[i].vs, vs), vIte(is, hs[i].ve, ve)
+			if tys[i] == int(t) {
+				found = true
+				ns, ne, vs, ve = hs[i].ns, hs[i].ne, hs[i].vs, hs[i].ve
+			}
 		}
 		f := hl.GetHdr(t)
-		vAssert("first-of-type-present", vOr(vAnd(found, f.Type == t), vAnd(!found, f.Type == HdrNone)))
-		okN := vAnd(int(f.Name.Offs) == ns, int(f.Name.Len) == ne-ns)
-		okV := vAnd(int(f.Val.Offs) == vs, int(f.Val.Len) == ve-vs)
-		vAssert("first-of-type-spans", vOr(!found, vAnd(okN, okV)))
+		if found {
+			vAssert("first-of-type-present", f.Type == t)
+			vAssert("first-of-type-spans", pfIs(f.Name, ns, ne) && pfIs(f.Val, vs, ve))
+		} else {
+			vAssert("first-of-type-absent", f.Type == HdrNone)
+		}
 	}
 	vAssert("type-flags", hl.PFlags == wantFlags)
 	vReach("wellformed")
